@@ -89,8 +89,17 @@ def run(ctx):
     rng, q = ctx.rng, ctx.quick()
     cases = []
     for _ in range(20 if q else 300):
-        cases.append(textgen.pipe(addr_lines(rng, 8), flags="ad", salt=rng.choice(ipgen.SALTS), pfx=rng.choice(["-", "D", ipgen.rand_prefix_list(rng), ipgen.net("1.2.3.4", 32)]),
-                                  nets=rng.choice(["-", "-", "P", ipgen.net("203.0.113.0", 24)]), b4=rng.choice([0, 8, 8, 1, 24, 32]), b6=rng.choice([0, 8, 64, 128])))
+        salt, pfx, nets, b4 = rng.choice(ipgen.SALTS), rng.choice(["-", "D", ipgen.rand_prefix_list(rng), ipgen.net("1.2.3.4", 32)]), rng.choice(["-", "-", "P", ipgen.net("203.0.113.0", 24)]), rng.choice([0, 8, 8, 1, 24, 32])
+        lines = addr_lines(rng, 8)
+        # the addresses whose replacement is mask-shaped (pre-images of masks under this very salt and option set), and IPv6 literals with an IPv4 tail
+        H = ipref.salter_of("md5:" + salt)
+        seeds = ipref.seeds_of("D" if pfx == "-" else pfx, nets, ipref.DEFAULTS)
+        for mval in rng.sample(["255.255.255.0", "0.0.0.255", "255.255.0.0", "63.255.255.255", "192.0.0.0", "255.255.255.252", "0.0.255.255"], 3):
+            x = ipref.image(H, 32, b4, seeds, int(ipaddress.IPv4Address(mval)), undo=True)
+            if not ipref.is_mask_ref(x) and not any(ipref.in_net(x, n) for n in ipref.nets_of(nets)):
+                lines.append("route %s via 8.8.4.4\n" % ipaddress.IPv4Address(x))
+        lines.append("map ::ffff:1.2.3.4 64:ff9b::10.0.0.1 ::1.2.3.4 then 5.6.7.8\n")
+        cases.append(textgen.pipe(lines, flags="ad", salt=salt, pfx=pfx, nets=nets, b4=b4, b6=rng.choice([0, 8, 64, 128])))
     def project(c, o):
         """the dump text only (whether it matches what was applied is decided per side by the oracle below)"""
         return "RAISED" if o.startswith("RAISED") else o.split("\x04")[-1]
